@@ -53,6 +53,8 @@ class LoopSpec:
     locals: dict = field(default_factory=dict)        # local name -> T: coerce (e.g. an empty python list) before the loop
     ghost: Callable | None = None                     # fn(view at loop entry) -> dict of ghost names (entry snapshots)
     step: Callable | None = None                      # fn(head_view, end_view) -> clauses proved for one arbitrary iteration
+    ghost_vars: dict = field(default_factory=dict)    # ghost LOOP variables: name -> T (initial value from `ghost`, havocked at the loop head)
+    ghost_step: Callable | None = None                # fn(head_view, end_view) -> dict name -> new value of the ghost variables after one iteration
 
 
 @dataclass
